@@ -215,13 +215,26 @@ class CFG:
                     stack.append(m)
         return seen
 
-    def always_preceded_by(self, node, pred, edge_ok=None):
-        """Every entry->node path passes through some node satisfying pred (node itself not counted)."""
+    @staticmethod
+    def _no_exc(edge_ok):
+        def ok(a, b, lab):
+            if lab is not None and lab[0] == "exc":
+                return False
+            return edge_ok(a, b, lab) if edge_ok is not None else True
+        return ok
+
+    def always_preceded_by(self, node, pred, edge_ok=None, exc=True):
+        """Every entry->node path passes through some node satisfying pred (node itself not counted).
+        exc=False ignores exceptional edges into handlers (obligation on the non-raising paths only)."""
+        if not exc:
+            edge_ok = self._no_exc(edge_ok)
         seen = self.reachable(node, avoid=pred, forward=False, edge_ok=edge_ok)
         return self.entry.id not in seen
 
-    def always_followed_by(self, node, pred, exits=None, edge_ok=None):
+    def always_followed_by(self, node, pred, exits=None, edge_ok=None, exc=True):
         """Every path from node to a normal exit passes through a pred-node (node itself not counted)."""
+        if not exc:
+            edge_ok = self._no_exc(edge_ok)
         seen = self.reachable(node, avoid=pred, forward=True, edge_ok=edge_ok)
         exits = exits if exits is not None else [self.exit]
         return not any(e.id in seen for e in exits)
